@@ -100,7 +100,15 @@ ContextCells ==
     \cup {InCtx(q[1], q[2], q[3]) : q \in {p \in {r \in Reduced : r.ctx \in {"arg", "argn"}} \X {"elem", "member", "arg"} \X {"elif_then", "elif_else", "loop"} :
                                                 XOK(p[2], TypeInContext(p[1]))}}
 
+\* Arrays of arrays: the coercions array -> view and &array -> slice pointer only drop the OUTER length; the
+\* element type -- here an array with its own length -- stays part of the type (`[2][4]i32` is no `[][3]i32`).
+NEST(n)   == Arr("2", Arr(n, I32))
+NestParams == {Slice(Arr("3", I32)), SPtr(Arr("3", I32)), Ptr(NEST("3")), Ptr(Arr("3", I32)), SLICE, SPTR}
+NestCells ==
+    {Cell(k, "", s, ks, d, 0) : k \in {"arg", "arg2"}, s \in {NEST("3"), NEST("4"), Arr("4", I32), ARR}, ks \in 0..1, d \in NestParams}
+
 Cells ==
+    NestCells \cup
     {Cell("bin", op, x[1], x[2], y[1], y[2]) : op \in BinOps \ {"adv"}, x \in Operand, y \in Operand}
     \cup {Cell("cmp", op, x[1], x[2], y[1], y[2]) : op \in CmpOps, x \in Operand, y \in Operand}
     \cup {Cell("un", op, x[1], x[2], <<>>, 0) : op \in UnOps, x \in Operand}
